@@ -307,5 +307,70 @@ class SaltChars(Part):
         return res
 
 
+class LongHistory(Part):
+    name = "long_history"
+    desc = "one long history (horizon): thousands of distinct secrets, then every one again; unique and stable replacements"
+
+    def __init__(self, tier, seed):
+        self.tier, self.seed = tier, seed
+
+    def cases(self):
+        n = 3000 if self.tier == "quick" else 20000
+        return [{"n": n, "kind": k} for k in ("text", "mixed")]
+
+    def run(self, case):
+        from netconan.anonymize_files import FileAnonymizer
+
+        res = Res()
+        n = case["n"]
+        secs = []
+        for i in range(n):
+            if case["kind"] == "text" or i % 4 == 0:
+                secs.append("Secret-%d-%s" % (i, "xY"[i % 2] * (i % 7)))
+            elif i % 4 == 1:
+                secs.append("%d" % (100000 + i * 7919))
+            elif i % 4 == 2:
+                secs.append("AB%X" % (0xC0FFEE00 + i))
+            else:
+                secs.append(refs.j9_encode("plain%d" % i, refs.J9_ALPHABET[i % 65]))
+        text = "".join("snmp-server community %s ro\n" % s for s in secs)
+        with seams.capture_logs():
+            fa = FileAnonymizer(anon_pwd=True, anon_ip=False, salt="saltForTest")
+            out1, out2 = io.StringIO(), io.StringIO()
+            fa.anonymize_io(io.StringIO(text), out1)
+            fa.anonymize_io(io.StringIO(text), out2)
+        r1 = [ln.split(" ")[2] for ln in out1.getvalue().splitlines()]
+        r2 = [ln.split(" ")[2] for ln in out2.getvalue().splitlines()]
+        res.evals += 2 * n
+        res.transitions += 2 * n
+        res.states += 1
+        if len(r1) != n or len(r2) != n:
+            res.violation("line-count", "%d %d vs %d" % (len(r1), len(r2), n), case)
+            return res
+        seen = {}
+        for i, (s, a, b) in enumerate(zip(secs, r1, r2)):
+            ca = canon_repl(a)
+            if a != b:
+                res.violation("equal-secrets-different-replacements|long-history",
+                              "secret #%d %r: first pass %r, second pass %r" % (i, s, a, b), case)
+                break
+            if ca.split(":", 1)[1] in seen and ca.startswith(("t:", "j9:")):
+                res.violation("different-secrets-same-replacement|long-history",
+                              "secrets #%d %r and #%d %r both got %r" % (seen[ca.split(":", 1)[1]], secs[seen[ca.split(":", 1)[1]]], i, s, a), case)
+                break
+            if ca.startswith(("t:", "j9:")) and not a[:1].isdigit() and not all(c in "0123456789abcdef" for c in a):
+                seen[ca.split(":", 1)[1]] = i
+            if a == s:
+                res.violation("secret-not-replaced|long-history", "secret #%d %r" % (i, s), case)
+                break
+        res.nt((case["kind"], n))
+        res.out(len(set(r1)))
+        if len(set(r1)) != n:
+            res.violation("different-secrets-same-replacement|long-history",
+                          "%d distinct secrets, %d distinct replacement strings" % (n, len(set(r1))), case)
+        res.samples.append({"secrets": n, "kind": case["kind"], "distinct_replacements": len(set(r1))})
+        return res
+
+
 def parts(tier, seed):
-    return [HistoryPart(tier, seed), SaltChars(tier, seed)]
+    return [HistoryPart(tier, seed), SaltChars(tier, seed), LongHistory(tier, seed)]
